@@ -443,7 +443,7 @@ func init() {
 	register(&Check{
 		ID: "C19", Level: "exploration", MinNontriv: 5,
 		Anchors: []string{"pkg/adaptation/plugin.go", "pkg/adaptation/adaptation.go", "pkg/stub/stub.go"},
-		Rule:    "rounds with 2-6 stub plugins each issuing 150 unsolicited update lists (0-4 updates, random fields, ids that make the callback report failures or fail) from outside any handler while 1-8 runtime goroutines issue 150 lifecycle requests each; online mutual-exclusion counters in the update callback and in every lifecycle handler, offline exactly-once / argument equality / result equality over unique ids, porcupine sequencer windows over the mixed history; plus a never-started stub; plus updates issued while Start is in progress, from the Configure handler and from the Synchronize handler, a connection dropped while the update is inside the callback, and callbacks slower than the request timeout; an update after the runtime issued a state change without an event (refused); a launched probe dying during a creation while another plugin's 300 ms update waits (the callback must not start after a handler of the request and finish before the request returns); distinct = distinct (list length, failed count) shapes, callback errors",
+		Rule:    "rounds with 2-6 stub plugins each issuing 150 unsolicited update lists (0-4 updates, random fields, ids that make the callback report failures or fail) from outside any handler while 1-8 runtime goroutines issue 150 lifecycle requests each; online mutual-exclusion counters in the update callback and in every lifecycle handler, offline exactly-once / argument equality / result equality over unique ids, porcupine sequencer windows over the mixed history; plus a never-started stub; plus updates issued while Start is in progress, from the Configure handler and from the Synchronize handler, a connection dropped while the update is inside the callback, and callbacks slower than the request timeout; an update after the runtime issued a state change without an event (refused); an update from the plugin that was handling a request when the runtime's caller cancelled its context; a launched probe dying during a creation while another plugin's 300 ms update waits (the callback must not start after a handler of the request and finish before the request returns); distinct = distinct (list length, failed count) shapes, callback errors",
 		Assumptions: []string{
 			"handlers run only inside request processing, so 'callback overlaps a handler' is exactly 'concurrent with the processing of another request'; waiting for the lock inside a caller's call window is not counted",
 		},
@@ -760,4 +760,17 @@ func c19Slow(c *ev.ChildEnv, res *ev.Result) {
 	<-gate
 	time.Sleep(30 * time.Millisecond) // the request is being relayed to the first two plugins
 	check("runtime busy longer than the request timeout", "busywait1", nil)
+
+	// the runtime's caller gives up on a request (its context is cancelled; no timeout is involved) while the
+	// first plugin is still handling it: that plugin did nothing wrong, stays registered, and the update it
+	// sends afterwards reaches the callback once with its result returned
+	ctx, cancel := context.WithCancel(context.Background())
+	go func() { time.Sleep(100 * time.Millisecond); cancel() }()
+	b := rt.A.BlockPluginSync()
+	rt.A.RunPodSandbox(ctx, &api.StateChangeEvent{Pod: &api.PodSandbox{Id: "busy-2", Name: "busy-2", Namespace: "ns"}})
+	b.Unblock()
+	cancel()
+	time.Sleep(450 * time.Millisecond) // the handler that was interrupted has returned
+	updater = ps[0]
+	check("update from the plugin whose request the caller cancelled", "aftercancel1", nil)
 }
